@@ -247,7 +247,8 @@ def run_case(case):
             for n in sel:
                 for r in tables[n][::3]:
                     for k in list(r):
-                        r[k] = None
+                        if not (keyed and k == 'seq'):      # (a source's own key stays a valid key)
+                            r[k] = None
             cov['config']['concatenate/rows_with_all_mapped_cells_null'] = 1
             cfg['all_null_rows'] = True
         tname = rng.choice(['concat', 'merged'])
